@@ -371,6 +371,7 @@ static void do_dense(Cur& c, std::ostream& o)
 
 void handle_meta(Cur& c, std::ostream& o);   // meta.cpp
 void handle_f64(Cur& c, std::ostream& o);    // f64.cpp
+void handle_f32(Cur& c, std::ostream& o);    // f64.cpp
 
 static void handle(const verif::Tokens& tk, std::ostream& o)
 {
@@ -378,6 +379,7 @@ static void handle(const verif::Tokens& tk, std::ostream& o)
   std::string fmt = c.str();
   if(fmt == "meta") { handle_meta(c, o); return; }
   if(fmt == "f64") { handle_f64(c, o); return; }
+  if(fmt == "f32") { handle_f32(c, o); return; }
   if(fmt == "dense") { do_dense(c, o); return; }
   Index it = c.idx();
   if(it != 32 && it != 64) { o << "BAD-OP"; return; }
